@@ -116,9 +116,20 @@ def make_case(rng, tier):
     return key, data, hdr, style
 
 
+_STRICT_HEX = __import__("re").compile(r"(?:[0-9a-f]{2})+")
+
+
 def corruptions(key, data, hdr, entry, rng):
     """yields (label, entry, keyhex, data)"""
     sig = bytes.fromhex(entry["signature"])
+    hx = hdr.hex()
+    # the header's hex with white space that a lenient hex decoder skips: the decoded bytes would be the signed ones, but the
+    # field is not a hex string
+    for lab, sp in (("hdr_hex_trailing_newline", hx + "\n"), ("hdr_hex_trailing_space", hx + " "), ("hdr_hex_inner_space", hx[:4] + " " + hx[4:]),
+                    ("hdr_hex_leading_newline", "\n" + hx), ("hdr_hex_crlf", hx + "\r\n"), ("hdr_hex_upper", hx.upper() if hx.upper() != hx else "AB" + hx)):
+        yield lab, dict(entry, other_headers=sp), key.hex, data
+    yield "sig_hex_trailing_newline", dict(entry, signature=entry["signature"] + "\n"), key.hex, data
+    yield "key_hex_trailing_newline", entry, key.hex + "\n", data
     i = rng.randrange(512)
     yield "sig_bit", dict(entry, signature=flipbit(sig, i).hex()), key.hex, data
     i = rng.randrange(256)
@@ -182,6 +193,8 @@ def run_ref(spec, rec, lib):
                 ok = openpgp.verify(bytes.fromhex(k2), d2, bytes.fromhex(e2["other_headers"]), bytes.fromhex(e2["signature"]))
             except Exception:
                 ok = False
+            if not (_STRICT_HEX.fullmatch(e2["other_headers"]) and _STRICT_HEX.fullmatch(e2["signature"]) and _STRICT_HEX.fullmatch(k2)):
+                ok = False  # not hex strings at all (white space a lenient decoder would skip): the entry is malformed
             rec.case("ref|%s|%s" % (label, dkey))
             expect(rec, lib, e2, k2, d2, ok, label, dict(case, corruption=label))
         if n < 1:
@@ -368,6 +381,8 @@ def run_gnupg(spec, rec, lib):
                     ok = openpgp.verify(bytes.fromhex(k2), d2, bytes.fromhex(e2["other_headers"]), bytes.fromhex(e2["signature"]))
                 except Exception:
                     ok = False
+                if not (_STRICT_HEX.fullmatch(e2["other_headers"]) and _STRICT_HEX.fullmatch(e2["signature"]) and _STRICT_HEX.fullmatch(k2)):
+                    ok = False  # not hex strings at all
                 rec.case("gnupg|%s" % label)
                 expect(rec, lib, e2, k2, d2, ok, "gnupg_" + label, dict(case, corruption=label))
             if n < 1:
